@@ -7,7 +7,8 @@ Ev == Trace[l]
 Conv(o) == [op |-> o.op, objs |-> ToSet(o.objs), first |-> o.first, repl |-> o.repl,
             a0 |-> ToSet(o.a0), b0 |-> ToSet(o.b0), a1 |-> ToSet(o.a1), b1 |-> ToSet(o.b1),
             failed |-> ToSet(o.failed), res |-> o.res, code |-> o.code, missing |-> ToSet(o.missing), named |-> ToSet(o.named),
-            lossy |-> IF "lossy" \in DOMAIN o THEN o.lossy ELSE FALSE]
+            lossy |-> IF "lossy" \in DOMAIN o THEN o.lossy ELSE FALSE,
+            directFailed |-> IF "directFailed" \in DOMAIN o THEN ToSet(o.directFailed) ELSE {}]
 TInit == l = 1
 TNext == l <= Len(Trace) /\ Ev.ev = "Mirror" /\ Ev.panic = "" /\ MirrorOK(Conv(Ev)) /\ l' = l + 1
 TSpec == TInit /\ [][TNext]_l
